@@ -257,6 +257,9 @@ func applyDocEdit(doc *JV, op Op) bool {
 		}
 		pay.Set("advances", &JV{K: 'a', A: []*JV{mk(op.S2), mk(op.S2), mk("3.333%")}})
 		return true
+	case "rmdefaulted":
+		// members the calculation fills in when they are absent
+		return doc.Del(op.S2)
 	case "mixrates":
 		// several lines taxed with different rate keys of the same category
 		if lines == nil || lines.K != 'a' || len(lines.A) == 0 {
@@ -336,7 +339,7 @@ func applyDocEdit(doc *JV, op Op) bool {
 	return false
 }
 
-var editKinds = []string{"qty", "price", "rmline", "dupline", "note", "rounding", "custname", "code", "breakdown", "linedisc", "linecharge", "docdisc", "advances", "codeweird", "addrweird", "taxidweird", "amountprec", "mixrates", "mixrates"}
+var editKinds = []string{"qty", "price", "rmline", "dupline", "note", "rounding", "custname", "code", "breakdown", "linedisc", "linecharge", "docdisc", "advances", "codeweird", "addrweird", "taxidweird", "amountprec", "mixrates", "mixrates", "rmdefaulted"}
 
 func genEdit(r *rand.Rand, id int) Op {
 	k := Pick(r, editKinds)
@@ -364,6 +367,8 @@ func genEdit(r *rand.Rand, id int) Op {
 		op.S2 = Pick(r, []string{" 187", "(0187)", "28 002", " Madrid ", "  ", "A  B", "c/ Mayor , 1 "})
 	case "amountprec":
 		op.S2 = Pick(r, []string{"10.12345", "0.005", "1.2349", "3.14159265"})
+	case "rmdefaulted":
+		op.S2 = Pick(r, []string{"type", "currency", "$regime", "type", "tax"})
 	}
 	return op
 }
